@@ -139,7 +139,7 @@ func cmdCheck(args []string) {
 		s.Prop, s.ReplayBin, s.ReplayDir, s.Seed = *prop, bin, replayDir, seed
 		s.RunID = len(jobs)
 		// the thorough tier re-runs the quick configurations as they are and cross-checks the deeper ones
-		s.Cross = *tier == "thorough" && len(jobs) >= len(cfg.Quick)
+		s.Cross = *tier == "thorough" && (len(jobs) >= len(cfg.Quick) || len(cfg.Thorough) == 0)
 		knows := s.OpenKeys
 		s.OpenKeys = openKeys
 		s.KnownMode = "exclude"
